@@ -13,15 +13,31 @@ use crossbeam_channel::Receiver as CrossbeamReceiver;
 use crossbeam_channel::SendError;
 use crossbeam_channel::Sender as CrossbeamSender;
 use log::{debug, error, trace, warn};
+#[cfg(not(amiquip_verif))]
 use mio::{Event, Evented, Events, Poll, PollOpt, Ready, Token};
+#[cfg(amiquip_verif)]
+use amiquip_simrt::poll::Poll;
+#[cfg(amiquip_verif)]
+use mio::{Event, Evented, Events, PollOpt, Ready, Token};
 use mio_extras::channel::sync_channel as mio_sync_channel;
 use mio_extras::channel::Receiver as MioReceiver;
 use snafu::ResultExt;
+#[cfg(not(amiquip_verif))]
 use std::collections::hash_map::HashMap;
+#[cfg(amiquip_verif)]
+use amiquip_simrt::collections::HashMap;
 use std::io;
 use std::sync::mpsc::TryRecvError;
+#[cfg(not(amiquip_verif))]
 use std::thread::{Builder, JoinHandle};
+#[cfg(amiquip_verif)]
+use amiquip_simrt::thread::{Builder, JoinHandle};
+#[cfg(not(amiquip_verif))]
 use std::time::{Duration, Instant};
+#[cfg(amiquip_verif)]
+use amiquip_simrt::time::Instant;
+#[cfg(amiquip_verif)]
+use std::time::Duration;
 
 #[cfg(feature = "native-tls")]
 use crate::stream::HandshakeStream;
